@@ -45,6 +45,10 @@ package net
 //@   requires[base] l.baseLn.fetchCredsFn != nil && l.baseLn.generateServerCertificatesFn != nil && cap(l.baseLn.options) == len(l.baseLn.options)
 //@   nopanic[C17]
 //@   loop 0 invariant[serving] true
+// Start only returns when the base listener failed for good; before it returns it has cancelled the split
+// listener's context - the one every sub-listener derives its own from and GetListener consults - so that
+// sub-listeners (including ones requested later) report closed
+//@   ensures[C17 cancelled] flag("cancelcalled")
 //@   call net.(*MultiplexingListener).IngressConn assert[C17 routed] protoConn != nil && payload(arg1) == protoConn && arg0 != nil
 //@   |   && ((!knownProto(negProto(protoConn.Conn)) && smHas(m, "__UNAUTH__") && as(smGet(m, "__UNAUTH__"), "net.MultiplexingListener") == arg0)
 //@   |       || (knownProto(negProto(protoConn.Conn)) && !hasPrefix(negProto(protoConn.Conn), "v1-nodee-fetch-node-creds-")
